@@ -507,6 +507,12 @@ func (r *Regex) LiteralPrefix() (prefix string, complete bool) {
 func literalPrefix(re *syntax.Regexp) (string, bool) {
 	switch re.Op {
 	case syntax.OpLiteral:
+		// A case-folded rune matches its whole fold orbit: the exact prefix ends there.
+		for i, r := range re.Rune {
+			if re.Flags&syntax.FoldCase != 0 && unicode.SimpleFold(r) != r {
+				return string(re.Rune[:i]), false
+			}
+		}
 		return string(re.Rune), true
 	case syntax.OpConcat:
 		// Concatenation: collect literal prefixes from the beginning
@@ -514,10 +520,8 @@ func literalPrefix(re *syntax.Regexp) (string, bool) {
 		hasAnchor := false
 		for _, sub := range re.Sub {
 			switch sub.Op {
-			case syntax.OpLiteral:
-				prefix = append(prefix, sub.Rune...)
-			case syntax.OpCapture:
-				// Look inside capture group
+			case syntax.OpLiteral, syntax.OpCapture:
+				// Look inside capture group / stop at a case-folded rune
 				inner, complete := literalPrefix(sub)
 				prefix = append(prefix, []rune(inner)...)
 				if !complete {
